@@ -65,6 +65,9 @@ def cases(rng, tier):
             metas.append((len(lines), a))
             lines += ls
         yield Case(lines, {"kind": "multi-call", "entry": entry, "args": cs[0][1], "multicall": metas})
+    # a save_* call followed by another plot in the same process: the later figure must contain only its own artists
+    for c in after_save_cases(rng, tier):
+        yield c
     n = 40 if tier == "quick" else 400
     for kind, s in gen.rand_seqs(rng, n, 120):
         yield phase_case(s, rng, rng.choice(["sp_show_phase", "sp_save_phase", "sp_show_uversky", "sp_save_uversky"]))
@@ -100,6 +103,52 @@ def cases(rng, tier):
         a = dict(kw, xs=xs, ys=ys, labels=labels, fmt=rng.choice(["png", "pdf"]))
         a.pop("label", None)
         yield Case([ptok(entry, a)], {"kind": "plots-multi", "entry": entry, "args": a})
+
+
+SAVE_ENTRIES = ["sp_save_phase", "sp_save_uversky", "sp_save_linear", "sp_save_complexity", "pl_save_single_phase", "pl_save_single_uversky",
+                "pl_save_multi_phase", "pl_save_multi_uversky", "pl_save_multi_phase2", "pl_save_multi_uversky2"]
+
+
+def save_call(entry, rng):
+    m = rng.randint(1, 3)
+    seqs = [gen.rand_seq(rng, rng.choice(gen.KINDS), rng.randint(8, 30)) for _ in range(m)]
+    fmt = rng.choice(["png", "pdf"])
+    if entry in ("sp_save_phase", "sp_save_uversky"):
+        a = {"seq": seqs[0], "fmt": fmt}
+    elif entry == "sp_save_linear":
+        a = {"seq": seqs[0], "kind": rng.choice(["NCPR", "FCR", "Sigma", "Hydropathy"]), "w": rng.randint(1, 5), "fmt": fmt}
+    elif entry == "sp_save_complexity":
+        a = {"seq": seqs[0] + "ACDEFGHIKL", "ctype": rng.choice(["WF", "LC", "LZW"]), "w": rng.randint(2, 8), "fmt": "png"}
+    elif "single" in entry:
+        a = {"x": round(rng.random() * 0.5, 3), "y": round(rng.random() * 0.4, 3), "fmt": fmt}
+    elif entry.endswith("2"):
+        a = {"seqs": seqs, "labels": ["s%d" % i for i in range(m)], "fmt": fmt}
+    else:
+        a = {"xs": [round(rng.random() * 0.5, 3) for _ in range(m)], "ys": [round(rng.random() * 0.5, 3) for _ in range(m)],
+             "labels": ["s%d" % i for i in range(m)], "fmt": fmt}
+    return a
+
+
+def after_save_cases(rng, tier):
+    reps = 1 if tier == "quick" else 4
+    for _ in range(reps):
+        for entry in SAVE_ENTRIES:
+            a0 = save_call(entry, rng)
+            s = gen.rand_seq(rng, rng.choice(gen.KINDS), rng.randint(8, 40))
+            c = phase_case(s, rng, rng.choice(["sp_show_phase", "sp_show_uversky"]), kind="after-save")
+            tags = dict(c.tags, off=1, prefix=[(entry, a0)])
+            yield Case([ptok(entry, a0)] + c.block, tags)
+            # and a second save after the first one (what the second file contains)
+            e2 = rng.choice(["sp_save_phase", "sp_save_uversky", "pl_save_multi_phase2", "pl_save_multi_uversky2"])
+            if e2.startswith("sp_"):
+                c2 = phase_case(s, rng, e2, kind="save-after-save")
+            else:
+                a2 = save_call(e2, rng)
+                ls = [ptok(e2, a2)]
+                for sq in a2["seqs"]:
+                    ls += ["q fplus " + sq, "q fminus " + sq, "q mnc " + sq, "q uversky " + sq]
+                c2 = Case(ls, {"kind": "save-after-save", "entry": e2, "args": a2})
+            yield Case([ptok(entry, a0)] + c2.block, dict(c2.tags, off=1, prefix=[(entry, a0)]))
 
 
 def multicall_cases(rng):
@@ -141,6 +190,18 @@ def near(a, b, tol=1e-9):
 
 
 def judge(case, reals, gens, specs):
+    off = case.tags.get("off", 0)
+    if off:
+        # the first `off` lines are earlier plot calls of the same process (e.g. a save_* call); they are judged on their own,
+        # then the call under test is judged exactly like a stand-alone one - it must not show anything of the earlier ones
+        out = []
+        for j, (e0, a0) in enumerate(case.tags["prefix"]):
+            sub = Case([case.block[j]], {"kind": "prefix", "entry": e0, "args": a0})
+            out += [(k, j, "earlier call: " + m) for k, _, m in judge(sub, reals[j:j + 1], gens[j:j + 1], specs[j:j + 1])]
+        sub = Case(case.block[off:], {k: v for k, v in case.tags.items() if k not in ("off", "prefix")})
+        out += [(k, i + off, "after %s in the same process: %s" % (", ".join(e for e, _ in case.tags["prefix"]), m))
+                for k, i, m in judge(sub, reals[off:], gens[off:], specs[off:])]
+        return out
     out = []
     entry, a = case.tags.get("entry"), case.tags.get("args")
     if entry is None:
@@ -178,7 +239,13 @@ def judge(case, reals, gens, specs):
             bad("no file written")
         elif a.get("fmt") in ("png", "pdf") and d.get("magic") != a["fmt"]:
             bad("file format %r, requested %r" % (d.get("magic"), a.get("fmt")))
-        return out   # a saved figure is closed by the code: nothing more to inspect
+        # the figure as it was when savefig was called is inspected exactly like a shown one
+        if d.get("n_savefig_calls") != 1 or not d.get("at_save"):
+            bad("savefig called %r times" % d.get("n_savefig_calls"))
+            return out
+        d = d["at_save"]
+        if case.tags.get("kind") == "prefix":
+            return out      # an earlier call of a block: only that it saved what it was asked to
     if d.get("nofig"):
         bad("no figure")
         return out
@@ -209,6 +276,8 @@ def judge(case, reals, gens, specs):
             else:
                 exp = [(vals["mnc"][1], vals["uversky"][1])]
                 mexp = [(float(core.parse_rat(svals["mnc"].split(" ")[1])), float(core.parse_rat(svals["uversky"].split(" ")[1])))]
+        elif "seqs" in a and len(reals) < 1 + 4 * len(a["seqs"]):
+            return out      # (a corpus block without the getter lines: nothing to compare the markers with)
         elif "seqs" in a:
             exp, mexp = [], []
             for k in range(len(a["seqs"])):
